@@ -1286,7 +1286,9 @@ func TestC19Concurrent(t *testing.T) {
 	base := fsBase(t)
 	rec := stats.For("C19")
 	rec.Note("concurrency", "concurrent cases keep one writer (Save) per key, as the client does; Load, List and Delete of the same key run next to it from other goroutines and processes. "+
-		"Two Saves of one key at the same time are not generated: the property speaks of operations on different keys")
+		"Two Saves of one key at the same time are not generated: the property speaks of operations on different keys. "+
+		"(A probe by hand, two goroutines saving one key: Saves fail with 'rename …: no such file or directory' and the key shows mixed content, "+
+		"as both write to the same <key>.spool.)")
 	maxOps, maxSize := 30, 1<<16
 	if thorough {
 		maxOps, maxSize = 120, 1<<20
@@ -1430,7 +1432,7 @@ func TestC19Concurrent(t *testing.T) {
 			pr.stdin = in
 			running = append(running, pr)
 		}
-		time.Sleep(2 * time.Millisecond) // let them reach their starting blocks
+		time.Sleep(5 * time.Millisecond) // let them reach their starting blocks
 		for _, pr := range running {
 			pr.stdin.Close()
 		}
